@@ -162,17 +162,17 @@ Definition kernel_task (k : kind) (t : terminal) : ParTask :=
   | _ => task_of t
   end.
 
-Definition finish (t : terminal) (pe : nat -> list (event Z)) (n : nat) (k : kind) (wl : list worker)
+Definition finish (t : terminal) (pe : nat -> list (event Z)) (n : nat) (k : kind) (adv : nat) (wl : list worker)
   : result :=
   match t with
   | TCollectVec | TCollectSplit =>
       match k with
-      | KMap => match res_map_col pe [] n wl with Some l => RList l | None => RPanic end
+      | KMap => match res_map_col_adv pe adv [] n wl with Some l => RList l | None => RPanic end
       | _ => RList (res_col pe [] wl)
       end
   | TCollectInto _ old =>
       match k with
-      | KMap => match res_map_col pe old n wl with Some l => RList l | None => RPanic end
+      | KMap => match res_map_col_adv pe adv old n wl with Some l => RList l | None => RPanic end
       | _ => RList (res_col pe old wl)
       end
   | TCollectX => RBag (res_colx pe wl)
@@ -503,7 +503,9 @@ Definition exec0 (c : case) : obs :=
                      else complete n known stop panics r (c_fuel c)
                             (run n known stop panics (m_dospawn r) (m_nextc r) (init (m_c0 r)) (c_sched c)) in
             (ws s, all_doneb s, any_dead s) in
-        let res := if done && negb dead then finish t pe n (kind_of p) wl else RPanic in
+        (* after an eager site the terminal runs over a fresh ConIterOfVec: indices start at 0 again *)
+        let adv := if (ps_runs st =? 0)%nat then Nat.min (c_pre c) (length (c_input c)) else 0%nat in
+        let res := if done && negb dead then finish t pe n (kind_of p) adv wl else RPanic in
         let pel := fun i => cut_panic pt (pe i) in
         let wlog := if is_find t then map (w_calls_find pel) wl else map (w_calls_full pel) wl in
         mkObs res params (kind_of (ps_par st0)) (ps_clog st0) (ps_consumed st0) (late :: wlog)
@@ -512,5 +514,7 @@ Definition exec0 (c : case) : obs :=
 
 Definition exec (c : case) : obs :=
   let o := exec0 c in
-  mkObs (shift_res (c_pre c) (o_result o)) (o_params o) (o_kind o) (o_clog o) (o_consumed o) (o_rlog o)
+  (* the parallel find kernels report the index the concurrent iterator hands out (original
+     position); the sequential path enumerates what is left *)
+  mkObs (if o_sequential o then o_result o else shift_res (c_pre c) (o_result o)) (o_params o) (o_kind o) (o_clog o) (o_consumed o) (o_rlog o)
         (o_spawned o) (o_chunks o) (o_pulls o) (o_sequential o) (o_seen o) (o_complete o) (o_runner o).
